@@ -16,7 +16,8 @@
    create's flag says whether the name was bound: C15_log_is_truthful), and under that meaning every name no patch
    of the range resolves to - a link in a cp -al twin, an unnamed file of the tree - keeps its inode, and the
    inode its bytes and mode, whatever is written (C15_push_keeps_links); that the kernel implements this meaning
-   is observed on the binary by the check, not proved. *)
+   is observed on the binary by the check, not proved.  The backup phase replaces too: a backup file is unlinked
+   before it is written, so the same holds for every name that is not a backup path (C15_backups_keep_links). *)
 From Coq Require Import List ZArith NArith Bool.
 Import ListNotations.
 From RQ Require Import Base Apply Parser Quilt QuiltProofs TreeRollback FreshInode SavedTree HardLinks.
@@ -101,3 +102,15 @@ Example C15_in_place_changes_twin :
   nrun (inames s) [OpCreate [[102%N]] true] <> None /\
   ilookup [[116%N]; [102%N]] (i_names s') = Some 5%N /\ i_data (i_node s' 5%N) = [98%N].
 Proof. exact in_place_changes_twin. Qed.
+
+(* the backup phase under every fault position: its log is truthful, touches only backup paths .pc/<patch>/<file>,
+   and creates only new entries - so a backup file left by an earlier push (and linked into a copy) is replaced *)
+Theorem C15_backups_keep_links :
+  forall dm stack ov down_to fs fs' r,
+  backups dm ov stack down_to fs = (fs', r) ->
+  exists added, fs_log fs' = fs_log fs ++ added /\
+    forall s ds t i, bounded s -> inames s = fnames fs -> ilookup t (i_names s) = Some i ->
+      ~ is_backup_path t ->
+      ilookup t (i_names (irun s added ds)) = Some i /\ i_node (irun s added ds) i = i_node s i.
+Proof. exact backups_keep_links. Qed.
+Print Assumptions C15_backups_keep_links.
